@@ -144,7 +144,7 @@ def discarded_sink_errors(prog, rep, RULE='R20.7'):
             rep.ob(RULE, ok, key, 'the writer handed back is asked for the error it recorded before success is reported' if ok else
                    '%s discards the error of the writes it issues (%s) and nothing examines what the destination reported before the function returns Ok: a write callback '
                    'that fails while the compressed stream is being closed goes unnoticed and the archive is short' % (cn, ERROR_DISCARDING[cn].split(':')[0]), body.loc(b.idx))
-    rep.floor(RULE, n, 2, 'calls that discard the errors of the writer they own, in functions returning a Result')
+    rep.floor(RULE, n, 1, 'calls that discard the errors of the writer they own, in functions returning a Result')
 
 
 def run(prog, rep, tier):
